@@ -726,4 +726,50 @@ theorem runCallbacks_acct (I : H11 H) (disp : Disp σ) (td : Teardown σ) (onLos
       | lost => exact connectionLost_acct onLost c h
     exact runCallbacks_acct I disp td onLost rest _ hA (fun o hm e => hne o (by simp [hm]) e)
 
+/-! ### a response without flags: `_process_response` is `send_response` and nothing else -/
+
+theorem processResponse_plain (I : H11 H) (c : Conn H σ) (r : Resp) (id : Nat)
+    (ht : r.task = false) (hk : r.sharedKey = false) :
+    (processResponse I c r id).1 = (sendResponse I c r id).1 ∧
+    (processResponse I c r id).2 = (if (sendResponse I c r id).2 then .ok else .proto) := by
+  unfold processResponse respFirst
+  simp only [ht, hk, Bool.false_eq_true, if_false]
+  cases (sendResponse I c r id).2 <;> simp
+
+theorem sendResponse_flags (I : H11 H) (c : Conn H σ) (r : Resp) (id : Nat) :
+    (sendResponse I c r id).1.encrypted = c.encrypted ∧ (sendResponse I c r id).1.finishPair = c.finishPair := by
+  unfold sendResponse
+  simp only []
+  split
+  · exact ⟨rfl, rfl⟩
+  · split
+    · exact ⟨rfl, rfl⟩
+    · split <;> exact ⟨rfl, rfl⟩
+
+/-- what `_process_one_event` does with a response that carries no flag at all: one write (or h11
+    refuses and nothing is written), nothing else of the connection object changes -/
+theorem respond_plain (I : H11 H) (td : Teardown σ) (d : Conn H σ) (r : Resp) (id : Nat)
+    (ht : r.task = false) (hk : r.sharedKey = false) (hr : r.pairingRemoved = false) (hc : r.pairingChanged = false) :
+    let x : Conn H σ × Step :=
+      match processResponse I d r id with
+      | (c', .proto) => (c', .proto)
+      | (c', .smuggled) => ({ c' with request := none, body := [] }, .cont true)
+      | (c', .ok) => ({ finishPairStep (teardownStep td c' r) r with request := none, body := [] }, .cont true)
+    x.1.w = d.w ∧ x.1.pending = d.pending ∧ x.1.encrypted = d.encrypted ∧ x.1.finishPair = d.finishPair ∧
+    x.1.closing = d.closing ∧ (x.1.out = d.out ∨ ∃ b, x.1.out = d.out ++ [.write b]) := by
+  obtain ⟨hp1, hp2⟩ := processResponse_plain I d r id ht hk
+  obtain ⟨s1, s2, _, _, _, _, s7, _, _, s10, s11⟩ := sendResponse_frame I d r id
+  obtain ⟨g1, g2⟩ := sendResponse_flags I d r id
+  generalize processResponse I d r id = y at hp1 hp2
+  obtain ⟨c1, res⟩ := y
+  simp only [] at hp1 hp2
+  subst hp1
+  cases hok : (sendResponse I d r id).2
+  · rw [hok] at hp2; simp only [Bool.false_eq_true, if_false] at hp2; subst hp2
+    exact ⟨s1, s7, g1, g2, s2, Or.inl (s11 hok).1⟩
+  · rw [hok] at hp2; simp only [if_true] at hp2; subst hp2
+    obtain ⟨b, o1, _⟩ := s10 hok
+    simp only [teardownStep, finishPairStep, hr, hc, Bool.false_eq_true, if_false]
+    exact ⟨s1, s7, g1, g2, s2, Or.inr ⟨b, o1⟩⟩
+
 end Hap.Http
